@@ -309,3 +309,17 @@ def aero_geom_problem(surfaces, flow, compressible=False, height=None, setup=Tru
     if setup:
         prob.setup()
     return prob
+
+
+def run_coupled(prob):
+    """run_model of an aerostructural model: a Gauss-Seidel iteration that diverges fills the AIC matrix with NaN and
+    scipy's LU then raises ValueError('array must not contain infs or NaNs') -- that is non-convergence of the coupling
+    (C12 quantifies over convergent couplings only), not a crash of the code under test."""
+    from .core import Inconclusive
+
+    try:
+        prob.run_model()
+    except ValueError as e:
+        if "infs or NaNs" in str(e):
+            raise Inconclusive("coupled iteration diverged to NaN")
+        raise
